@@ -322,7 +322,68 @@ def _eligible(prop, tier):
     return names
 
 
-def prepare(prop, tier, seed, only=None):
+class NeedFile(Exception):
+    """Subset preparation: a run needs a file that has not been prepared yet."""
+
+
+def selftest_context():
+    return dict(names=_ST['names'], dwarf_names=_ST.get('dwarf_names', []), prep_cross=_ST['prep_cross'],
+                n_random=_ST['n_random'], n_pairs=_ST.get('n_pairs', 0), n_xfile=_ST.get('n_xfile', 0))
+
+
+def _prepare_subset(prop, tier, seed, only, context):
+    """Determinism self-test: the run indices `only`, with the list of usable files and the index-space sizes taken over
+    from the finder; catalogue, pool and references are recomputed here, but only for the files those runs touch."""
+    _ST.clear()
+    _ST.update(files={}, prop=prop, prep={}, skipped_files={}, tier=tier, names=context['names'], dwarf_names=context['dwarf_names'],
+               prep_cross=context['prep_cross'], n_random=context['n_random'], n_pairs=context['n_pairs'], n_xfile=context['n_xfile'])
+    focus = _focus(prop)
+    nx = len(_ST['prep_cross'])
+
+    def prep(names):
+        names = [n for n in names if n not in _ST['prep']]
+        for n in names:
+            _file_info(n)
+        for ti, (st, res) in forkpool.pmap(_prep_file, [(n, tier, seed, focus, None) for n in names], timeout=600):
+            if st == 'ok' and res['ok']:
+                _ST['files'][names[ti]].update(pool=res['pool'], refs=res['refs'], ticks=res['ticks'], positions=res['positions'], kinds=res['kinds'])
+                _ST['prep'][names[ti]] = True
+    first = set()
+    names = _ST['names']
+    for index in only:
+        if index < nx:
+            first.add(_ST['prep_cross'][index]['file'])
+            continue
+        r = substream(run_seed(seed, prop, tier, index), 'cfg')
+        if index >= nx + _ST['n_random'] + _ST['n_pairs']:
+            dn = _ST['dwarf_names']
+            first.add(dn[(index - nx - _ST['n_random'] - _ST['n_pairs']) % len(dn)])   # the partner is found by gen_spec below
+        elif index >= nx + _ST['n_random']:
+            first.add(names[(index - nx - _ST['n_random']) % len(names)])
+        else:
+            first.add(names[(index - nx) % len(names)] if r.random() < 0.5 else r.choice(names))
+    for n in names:
+        _file_info(n)
+    prep(sorted(first))
+    for _round in range(4):
+        more = set()
+        for index in only:
+            try:
+                sp = gen_spec(prop, tier, seed, index)
+                more.update(sp.get('files') or [sp['file']])
+            except NeedFile as e:
+                more.add(e.args[0])
+            except KeyError:
+                pass
+        more = sorted(n for n in more if n not in _ST['prep'])
+        if not more:
+            break
+        prep(more)
+
+
+def prepare(prop, tier, seed, only=None, context=None):
+    if only is not None and context is not None:
+        return _prepare_subset(prop, tier, seed, only, context)
     _ST.clear()
     _ST['files'] = {}
     _ST['prop'] = prop
@@ -380,8 +441,8 @@ def prepare(prop, tier, seed, only=None):
     _ST['prep_cross'].sort(key=lambda c: (c['file'], c['key'], json.dumps(c['op'])))
     _ST['tier'] = tier
     npairs = 0
-    _ST['n_random'] = (9000 if prop == 'C10' else 5000) if tier == 'quick' else (150000 if prop == 'C10' else 60000)
-    _ST['n_pairs'] = (3000 if prop == 'C10' else 1500) if tier == 'quick' else (120000 if prop == 'C10' else 30000)
+    _ST['n_random'] = (14000 if prop == 'C10' else 8000) if tier == 'quick' else (150000 if prop == 'C10' else 60000)
+    _ST['n_pairs'] = (6000 if prop == 'C10' else 3000) if tier == 'quick' else (120000 if prop == 'C10' else 30000)
     _ST['dwarf_names'] = [n for n in _ST['names'] if any(_kind(o) in ('lineprog_seq', 'die_iter') for o in _ST['files'][n]['pool'])]
     _ST['n_xfile'] = 0
     if prop == 'C10' and len(_ST['dwarf_names']) >= 2:
@@ -416,6 +477,8 @@ def gen_spec(prop, tier, seed, index):
         a = r.choice(same)
         tasks = []
         for n in (a, b):
+            if 'pool' not in _ST['files'][n]:
+                raise NeedFile(n)
             wide = [o for o in _ST['files'][n]['pool'] if _kind(o) in ('lineprog_seq', 'die_iter', 'cfi_entries', 'cfi_decoded_seq', 'loc_iter', 'rng_iter', 'aranges_entries', 'pub_items', 'tu_iter', 'cu_iter', 'die_top', 'session:lineprog', 'session:cu')]
             r.shuffle(wide)
             tasks.append(wide[:6])
@@ -457,6 +520,8 @@ def gen_spec(prop, tier, seed, index):
         # two files opened in one process (process-wide struct caches): the last task works on another file
         other = r.choice([n for n in names if n != name])
         fo = _ST['files'][other]
+        if 'pool' not in fo:
+            raise NeedFile(other)
         spec['files'] = [name, other]
         spec['task_files'] = [0] * (ntasks - 1) + [1]
         spec['tasks'][-1] = [fo['pool'][i] for i in rq.choices(range(len(fo['pool'])), k=rq.randrange(1, 9))]
